@@ -367,12 +367,16 @@ Definition tx_valid_b (ref : list Z) (t : transcript) : bool :=
 Definition gen_wf (ref : list Z) (txs : list transcript) : bool :=
   forallb (fun c => mem c dna10) ref && forallb (tx_valid_b ref) txs && (len txs <? tx_bases txs).
 Definition tr_wf (rows : list (list Z)) : bool := forallb (forallb (fun c => (0 <=? c) && (c <? 256))) rows.
+(* multi-step cases: codon rows whose reverse complements are codon rows again (both decided by computation per case) *)
+Definition seq_wf (rows : list (list Z)) : bool :=
+  tr_wellformed rows && tr_wellformed (map spec_revcomp rows) && forallb (forallb (fun c => mem c (domain 0))) rows.
 Definition case_wf (c : case) : bool :=
   match c with
   | CRev e rows _ _ _ => rev_wf e rows
   | CStr route e ref ivs _ _ => str_wf route e ref ivs
   | CTr rows _ _ => tr_wf rows
   | CGen ref txs _ _ => gen_wf ref txs
+  | CSeq rows _ => seq_wf rows
   end.
 
 Lemma forallb_mem_Forall l D : forallb (fun c => mem c D) l = true -> Forall (fun c => In c D) l.
@@ -453,13 +457,36 @@ Proof.
       (eapply all_true_impl; [|exact Hm]); intros o Ho; cbn [obs_eqb] in Ho; apply Z.eqb_eq in Ho; rewrite Ho; reflexivity.
 Qed.
 
+Lemma canon0_rows (rows : list (list Z)) : map (map (canon 0)) rows = rows.
+Proof.
+  rewrite <- (map_id rows) at 2. apply map_ext. intros r. rewrite <- (map_id r) at 2. apply map_ext. intros c. reflexivity.
+Qed.
+Lemma link_seq rows steps : seq_wf rows = true ->
+  model_ok (CSeq rows steps) = true -> prop_ok (CSeq rows steps) = true.
+Proof.
+  unfold seq_wf. intros Hw Hm. rewrite !andb_true_iff in Hw. destruct Hw as [[W1 W2] Hr].
+  assert (Hrows : Forall (Forall (fun c => In c (domain 0))) rows).
+  { rewrite forallb_forall in Hr. apply Forall_forall. intros r Hin. apply forallb_mem_Forall, Hr, Hin. }
+  destruct (revcomp_all complements domain grid_head 0 rows (or_introl eq_refl) Hrows) as [R1 [_ R3]].
+  cbv zeta in R1. rewrite canon0_rows in R3.
+  assert (R1' : model_revcomp complements 0 rows = Ok (map spec_revcomp rows)).
+  { rewrite R1. f_equal. apply map_ext. intros r. f_equal. rewrite <- (map_id r) at 2. apply map_ext. intros c. reflexivity. }
+  cbn [model_ok prop_ok] in *. eapply all_true_impl; [|exact Hm].
+  intros [k o] H. cbn [fst snd] in *. unfold seq_model, seq_spec in *.
+  destruct (k =? 0); [exact H|]. destruct (k =? 1); [rewrite (translate_wellformed rows W1) in H; exact H|].
+  destruct (k =? 2); [rewrite R1' in H; exact H|].
+  destruct (k =? 3); [rewrite R1', (translate_wellformed _ W2) in H; exact H|].
+  rewrite R3 in H. exact H.
+Qed.
+
 Theorem link_all : forall c, case_wf c = true -> model_ok c = true -> prop_ok c = true.
 Proof.
-  intros [e rows once twice bio|route e ref ivs o bio|rows outs bio|ref txs o bio] Hw Hm.
+  intros [e rows once twice bio|route e ref ivs o bio|rows outs bio|ref txs o bio|rows steps] Hw Hm.
   - apply link_rev; assumption.
   - apply link_str; assumption.
   - apply link_tr; assumption.
   - apply link_gen; assumption.
+  - apply link_seq; assumption.
 Qed.
 
 Lemma translate_total rows : bytes_ok rows ->
